@@ -401,7 +401,12 @@ fn honest_specs(rng: &mut Rng, n: usize, slot: u64, nparents: usize, full: bool)
                 ids.push(next_tx);
                 next_tx += 1;
             }
-            let txs = if full && i == n / 2 {
+            let txs = if full && i == n / 2 && rng.chance(1, 2) {
+                // many small transactions: more elements than the slice has bytes / 24 (decoders that bound the
+                // *memory* of the decoded vector by the slice size refuse such a slice)
+                let v: Vec<u64> = (0..1400 + rng.below(200)).map(|j| 100_000 + j).collect();
+                Txs::Ids(v)
+            } else if full && i == n / 2 {
                 let v: Vec<u64> = (0..60).map(|j| 1000 + j).collect();
                 Txs::Big(v)
             } else {
